@@ -118,12 +118,15 @@ def gen(ctx, todo_cells):
         'ok16': open_msg(65003, 3, []),
         'bad': open_msg(65002, 90, [(65, struct.pack('>I', 65002))]),
         'ap-err': open_msg(65005, 90, [(65, struct.pack('>I', 65005)), (69, struct.pack('>HBB', 1, 1, 0))]),
+        # the two-octet field and the four-octet capability disagree: the peer's AS is the one in the capability (RFC 6793)
+        'ok-cap': open_msg(65002, 90, [(65, struct.pack('>I', 65001))]),
+        'bad-cap': open_msg(65001, 90, [(65, struct.pack('>I', 65002))]),
     }
     cases = []
 
     def step_of(ev):
         if ev in ('BgpOpen', 'BgpOpenWithDelayOpenTimerRunning'):
-            k = rng.choice(['ok', 'ok', 'ok2', 'ok16', 'bad', 'ap-err'])
+            k = rng.choice(['ok', 'ok', 'ok2', 'ok16', 'bad', 'ap-err', 'ok-cap', 'bad-cap'])
             return 'E:%s:%s' % (ev, opens[k].hex()), ev, k
         return 'e:' + ev, ev, None
     # 1. every history of length <= depth over all 21 events (from Idle), both DelayOpen settings
@@ -165,7 +168,7 @@ def gen(ctx, todo_cells):
                 if via == 't' and st == 'Connect':
                     continue      # no connection to read from
                 for delay in (0, 1):
-                    variants = ['ok', 'ok2', 'bad', 'ap-err', 'ok16'] if mk == 'open' else ([None, 'n2.1', 'n2.2', 'n4.0', 'n6.4d'] if mk == 'notification' else [None])
+                    variants = ['ok', 'ok2', 'bad', 'ap-err', 'ok16', 'ok-cap', 'bad-cap'] if mk == 'open' else ([None, 'n2.1', 'n2.2', 'n4.0', 'n6.4d'] if mk == 'notification' else [None])
                     for ok in variants:
                         b = opens[ok] if mk == 'open' else (notifs[ok] if ok else msgs[mk])
                         out.append({'delay': delay, 'hold': rng.choice([90, 3, 0]), 'ap': '1.1,2.1', 'pre': pre,
@@ -179,7 +182,7 @@ def gen(ctx, todo_cells):
                 steps.append(step_of(rng.choice(EVENTS)))
             elif r < 9:
                 mk = rng.choice(['open', 'keepalive', 'update', 'notification'])
-                ok = rng.choice(['ok', 'ok2', 'bad', 'ok16']) if mk == 'open' else None
+                ok = rng.choice(['ok', 'ok2', 'bad', 'ok16', 'ok-cap', 'bad-cap']) if mk == 'open' else None
                 b = opens[ok] if mk == 'open' else msgs[mk]
                 steps.append(('m:' + b.hex(), 'msg:' + mk, ok))
             else:
@@ -251,7 +254,7 @@ def run(ctx):
                     else:
                         viol('the session panicked')
                     break
-                open_ok = ok in ('ok', 'ok2', 'ok16')
+                open_ok = ok in ('ok', 'ok2', 'ok16', 'ok-cap')
                 want = rfc_next(st, evn, dot, bool(c['delay']), open_ok)
                 if ok == 'ap-err' and st in ('OpenSent', 'Connect', 'Active') and evn.startswith('BgpOpen') and (st == 'OpenSent') == (evn == 'BgpOpen'):
                     # K6: no OPEN-message-error handling for an ADD-PATH capability that does not parse
